@@ -34,13 +34,35 @@ fn cfg6(tier: Tier) -> ParamCfg {
         t_kind: TKind::BatchingOnly, t_bits_lo: 8, t_bits_hi: 24, need_keyswitching: true, allow_special_flag: false, always_expand: true }
 }
 
+/// One exact-scheme set in four gets one of its data primes (not the first, not the special one) replaced by a prime of the same
+/// bit length that is 1 modulo t (and modulo 2N): dropping it multiplies the BGV correction factor by exactly 1, the corner in
+/// which an implementation may be tempted to skip the update. The replacement is not smaller than the prime it replaces, so t
+/// stays below every level's modulus exactly as before.
+fn prime_one_mod_t(mut ps: ParamSet) -> ParamSet {
+    if ps.scheme == Scheme::CKKS || ps.t < 2 || ps.moduli.len() < 3 || ps.entropy % 4 != 1 { return ps; }
+    let idx = 1 + ((ps.entropy >> 8) as usize) % (ps.moduli.len() - 2);
+    let old = ps.moduli[idx]; let bits = 64 - old.leading_zeros();
+    let two_n = 2u128 << ps.logn; let t = ps.t as u128;
+    let g = { let (mut a, mut b) = (two_n, t); while b != 0 { let r = a % b; a = b; b = r; } a };
+    let l = two_n / g * t;
+    if l >= (1u128 << bits) { return ps; }
+    let mut k = (old as u128 + l - 1) / l; let mut tries = 0;
+    while tries < 4000 {
+        let cand = k * l + 1; if cand >= (1u128 << bits) { break; }
+        let c = cand as u64;
+        if c >= old && !ps.moduli.contains(&c) && crate::refmath::is_prime(c) { ps.moduli[idx] = c; break; }
+        k += 1; tries += 1;
+    }
+    ps
+}
+
 fn forms_case(tier: Tier) -> BoxedStrategy<FormsCase> {
     let test = (0usize..EPS.len(), any::<[u16; 5]>(), any::<i16>(), 0u8..24, any::<u16>(), 0u8..4)
         .prop_map(|(e, s, step, corr, cpos, cwhich)| TestSpec { ep: EPS[e], a: s[0], b: s[1], c: s[2], p: s[3], tgt: s[4], step, corr, cpos, cwhich });
     // one case in four: primes from 20 bits and plain moduli up to 44 bits, so that t exceeds some q_i (no fast plain lift;
     // the scaling code then handles addends that are not reduced modulo q_i)
     let wide = ParamCfg { schemes: vec![Scheme::BFV, Scheme::BGV], bits_lo: 20, t_bits_hi: 44, ..cfg6(tier) };
-    prop_oneof![3 => cfg6(tier).strategy(), 1 => wide.strategy()].prop_flat_map(move |ps| {
+    prop_oneof![3 => cfg6(tier).strategy(), 1 => wide.strategy()].prop_map(prime_one_mod_t).prop_flat_map(move |ps| {
         let n = 1usize << ps.logn;
         (Just(ps), proptest::collection::vec((0u8..10, any::<u16>(), any::<u16>()), 0..10), proptest::collection::vec((any::<u8>(), any::<u64>()), n),
          proptest::collection::vec((any::<i32>(), any::<i32>()), n / 2), proptest::collection::vec(test.clone(), 1..6))
